@@ -219,6 +219,43 @@ func runImpl(c *Case) {
 	switch c.Kind {
 	case "inst":
 		c.Impl = instOutputs(c.T.In(loc), time.Weekday(c.W), int(c.Kw), int(c.Nd), int(c.H), int(c.M), int(c.S))
+		if !c.Zone.Fixed {
+			c.MidReg = midnightRegularGo(c.Zone, dayOf(c.T.In(loc)))
+		}
+	case "zlook": // Location.lookup through the public API, clipped to the range of the extracted table
+		off, s, e := goLookup(loc, c.T.S)
+		// Package time's (start, end) are not everywhere a partition of the time line (Go 1.23): in the region of the TZ
+		// extend rule tzset reports the last piece of a LEAP year with end = start of the year + 365 days (December 31st
+		// 00:00 UTC) although the instants of December 31st belong to the same piece, and the last piece of the embedded
+		// table (ending at 2^31-1 in the 32-bit data) overlaps the first piece that tzset reports for the same year.
+		// Start and end are compared with the model only where package time is consistent with itself: the piece starts
+		// at its start, the previous instant belongs to another piece, and the next piece starts at its end.
+		// Elsewhere only the offset is compared (query ZOffset).
+		consistent := true
+		if s != alphaSec {
+			_, s1, _ := goLookup(loc, s)
+			_, _, e0 := goLookup(loc, s-1)
+			consistent = consistent && s1 == s && e0 == s
+		}
+		if e != omegaSec {
+			_, s2, _ := goLookup(loc, e)
+			_, s3, e3 := goLookup(loc, e-1)
+			consistent = consistent && s2 == e && s3 == s && e3 == e && e > c.T.S
+		}
+		if !consistent {
+			c.Class = "lookup-bounds-not-a-partition"
+			c.Impl = []Res{rZ(off)}
+			break
+		}
+		if s <= tabLo {
+			s = alphaSec
+		}
+		if e >= tabHi {
+			e = omegaSec
+		}
+		c.Impl = []Res{rZ(off), rZ(s), rZ(e)}
+	case "zok":
+		c.Impl = []Res{rB(true)}
 	case "date":
 		c.Impl = []Res{safe(func() Res {
 			return rT(time.Date(int(c.F[0]), time.Month(c.F[1]), int(c.F[2]), int(c.F[3]), int(c.F[4]), int(c.F[5]), int(c.F[6]), loc))
